@@ -18,7 +18,8 @@ From Anthem Require Import Base.ISet Syntax.Fol Syntax.Asp Sem.Domain Sem.Sat Se
   Model.Completion Model.StrategyCls Model.ExternalFull
   Proofs.ExtendAll Proofs.SemBase Proofs.DecomposeOk Proofs.StrongOk Proofs.ExternalOk Proofs.AssemblyOk Proofs.RenameOk
   Proofs.PlaceholderOk Proofs.PrivateUnique
-  Proofs.C19Ext Proofs.NoClashDec Proofs.C02Ok Proofs.C02Full Proofs.C02Priv Proofs.C02Behaviour Proofs.C02Spec.
+  Proofs.C19Ext Proofs.NoClashDec Proofs.C02Ok Proofs.C02Full Proofs.C02Priv Proofs.C02Behaviour Proofs.C02Complete Proofs.C02Spec
+  Proofs.C02SpecComplete.
 Import ListNotations.
 Open Scope string_scope.
 Open Scope list_scope.
@@ -120,4 +121,46 @@ Proof.
   split; [exact (tx_refuted_backward FI)|]. split; [exact (tx_difference_backward FI)|].
   split; [exact (tx_Mb_external_stable FI)|]. split; [exact (tx_Mb_violates_spec FI)|].
   split; [exact (tx_refuted_forward FI)|exact (tx_difference_forward FI)].
+Qed.
+
+(* ---------- the public-level reading on tx ---------- *)
+Lemma tx_rename_faithful : spec_rename_faithful tx Sx.
+Proof. apply spec_rename_faithfulb_ok. vm_compute. reflexivity. Qed.
+(* "=>" of spec_external_equivalence: from the refutation to a difference stated on the two sides *)
+Lemma tx_public_difference FI : exists J T, spec_public_difference tx Sx FI J T.
+Proof.
+  apply (proj1 (spec_external_equivalence full_fuel tx Sx [] pbsx eq_refl eq_refl (proj1 tx_accepted) tx_tight tx_no_clash
+                  tx_rename_faithful FI)).
+  exists Mb. exact (tx_refuted_backward FI).
+Qed.
+(* "<=": from the public-level difference (J = Mb, T = Mb through the renaming) back to a countermodel *)
+Lemma tx_public_complete FI : exists M, pagree (spec_voc tx Sx) M Mb /\ refutes_some FI M pbsx.
+Proof.
+  apply (spec_public_complete full_fuel tx Sx [] pbsx eq_refl eq_refl (proj1 tx_accepted) tx_tight tx_no_clash
+           tx_rename_faithful FI Mb (reindex (task_mapping tx) Mb)).
+  apply spec_difference_public. exact (tx_difference_backward FI).
+Qed.
+
+(* ---------- F9 on a specification task: the renaming is not faithful ----------
+   specification   assumption: forall X (aux(X) -> p(X)).  spec: forall X (q(X) -> p(X)).
+   program         aux(X) :- p(X).  aux_p(X) :- p(X).  q(X) :- aux(X), not aux_p(X).
+   aux/1 is private on both sides, so the program's aux is renamed aux_p - the name of another private
+   predicate of the program: the emitted problems contain two completed definitions of aux_p/1. *)
+Definition pos1 (p : string) : bformula := BLit (mklit SNone (mkatom p [TVar "X"])).
+Definition neg1 (p : string) : bformula := BLit (mklit SNeg (mkatom p [TVar "X"])).
+Definition rule1 (h : string) (b : list bformula) : rule := mkrule (HBasic (mkatom h [TVar "X"])) b.
+Definition at1 (p : string) : formula := FAtomic (AAtom p [GVar "X"]).
+Definition S9 : specification :=
+  [mkannot RAssumption DUniversal "" (FQ QForall [mkvar "X" SGeneral] (FBin CImp (at1 "aux") (at1 "p")));
+   mkannot RSpec DUniversal "" (FQ QForall [mkvar "X" SGeneral] (FBin CImp (at1 "q") (at1 "p")))].
+Definition P9 : program :=
+  [rule1 "aux" [pos1 "p"]; rule1 "aux_p" [pos1 "p"]; rule1 "q" [pos1 "aux"; neg1 "aux_p"]].
+Definition t9s : ext_task :=
+  mkext (inr S9) P9 [UGInput (mkpred "p" 1); UGOutput (mkpred "q" 1)] [] DSequential DBackward ReprTauStar false true true.
+Lemma t9s_accepted : exists w pbs, external_decompose_full full_fuel t9s = XOk w pbs.
+Proof. eexists _, _. vm_compute. reflexivity. Qed.
+Lemma t9s_not_faithful : ~ spec_rename_faithful t9s S9.
+Proof.
+  intros [_ H]. specialize (H "aux" "aux_p" 1 ltac:(vm_compute; auto) ltac:(vm_compute; auto) ltac:(vm_compute; reflexivity)).
+  discriminate.
 Qed.
